@@ -163,3 +163,50 @@ Proof.
   specialize (S ww_g ww_all 0 1 [] [] (map HInsert ww_all) (map HInsert ww_all') 8%nat d1 d2 ID SK FF H1 H2).
   cbv zeta in S. specialize (S E1 E2). rewrite A3, B3 in S. discriminate S.
 Qed.
+
+(** * The same by SCHEDULING ALONE: every coin bit true *)
+(* ws: four validators, 82 gossip events, the join request in event 0, every event's coin bit TRUE (no
+   special hash anywhere: the situation of an adversary that only controls the order of delivery).  The
+   first block (round-received 1) is committed when event 58 arrives and round 8 exists; node A
+   (creation order) and node B (ancestors of 58 first) give event 54 rounds 8 and 7 and deliver
+   different blocks of index 7.  Replayed on two real cores: corpus/C01-window-fork-sched.json. *)
+Definition ws_ev (t : Z * Z * Z * Z * Z) : event :=
+  match t with (id, c, ix, sp, op) =>
+    mkEvent id c ix sp op 0 true (1000 + id) [id]
+            (if (c =? 0) && (ix =? 0) then [mkItx id true (mkPeer 104 4) true true] else []) [] true end.
+Definition ws_rows : list (Z * Z * Z * Z * Z) :=
+  [(0,0,0,-1,-1); (1,1,0,-1,-1); (2,2,0,-1,-1); (3,3,0,-1,-1); (4,3,1,3,1); (5,3,2,4,0); (6,1,1,1,5);
+   (7,0,1,0,6); (8,3,3,5,7); (9,1,2,6,8); (10,0,2,7,9); (11,2,1,2,8); (12,3,4,8,10); (13,0,3,10,12);
+   (14,3,5,12,11); (15,2,2,11,13); (16,1,3,9,14); (17,3,6,14,16); (18,0,4,13,15); (19,3,7,17,18); (20,1,4,16,18);
+   (21,0,5,18,19); (22,0,6,21,20); (23,2,3,15,19); (24,3,8,19,22); (25,0,7,22,24); (26,1,5,20,23);
+   (27,2,4,23,25); (28,1,6,26,25); (29,3,9,24,28); (30,0,8,25,27); (31,1,7,28,30); (32,1,8,31,29);
+   (33,0,9,30,32); (34,2,5,27,32); (35,2,6,34,33); (36,3,10,29,33); (37,1,9,32,35); (38,2,7,35,37);
+   (39,0,10,33,36); (40,3,11,36,38); (41,0,11,39,38); (42,2,8,38,41); (43,3,12,40,42); (44,1,10,37,42);
+   (45,2,9,42,44); (46,1,11,44,43); (47,3,13,43,45); (48,0,12,41,47); (49,2,10,45,46); (50,3,14,47,49);
+   (51,2,11,49,50); (52,1,12,46,51); (53,2,12,51,52); (54,3,15,50,53); (55,1,13,52,48); (56,2,13,53,55);
+   (57,1,14,55,56); (58,0,13,48,56); (59,3,16,54,57); (60,1,15,57,59); (61,2,14,56,60); (62,1,16,60,58);
+   (63,3,17,59,62); (64,2,15,61,58); (65,0,14,58,64); (66,1,17,62,65); (67,0,15,65,63); (68,2,16,64,67);
+   (69,3,18,63,66); (70,1,18,66,69); (71,0,16,67,70); (72,1,19,70,68); (73,2,17,68,69); (74,3,19,69,71);
+   (75,0,17,71,72); (76,1,20,72,73); (77,2,18,73,74); (78,3,20,74,75); (79,0,18,75,76); (80,1,21,76,77);
+   (81,2,19,77,78)].
+Definition ws_all : list event := map ws_ev ws_rows.
+Definition ws_ordb : list Z :=
+  [0; 1; 2; 3; 4; 5; 6; 7; 8; 9; 10; 11; 12; 13; 14; 15; 16; 17; 18; 19; 20; 21; 22; 23; 24; 25; 26; 27; 28; 29;
+   30; 31; 32; 33; 34; 35; 36; 37; 38; 39; 40; 41; 42; 43; 44; 45; 46; 47; 48; 49; 50; 51; 52; 53; 55; 56; 58;
+   54; 57; 59; 60; 61; 62; 63; 64; 65; 66; 67; 68; 69; 70; 71; 72; 73; 74; 75; 76; 77; 78; 79; 80; 81].
+Definition ws_all' : list event := map (fun i => nth (Z.to_nat i) ws_all (ws_ev (0, 0, 0, 0, 0))) ws_ordb.
+
+Lemma ws_facts :
+  forallb e_coin ws_all = true /\
+  distinctb (map e_id ws_all) = true /\ distinctb (map e_sigkey ws_all) = true /\ fork_freeb ws_all = true /\
+  (length ws_ordb = 82%nat /\ forallb (fun i => existsb (Z.eqb i) ws_ordb) (zseq 0 82) = true) /\
+  let sa := hrun (init_hg 0 ww_g []) (map HInsert ws_all) in
+  let sb := hrun (init_hg 1 ww_g []) (map HInsert ws_all') in
+  failed sa = false /\ failed sb = false /\
+  map (fun p => (fst p, length (snd p))) (peersets sa) = [(0, 4%nat); (7, 5%nat)] /\
+  map (fun p => (fst p, length (snd p))) (peersets sb) = [(0, 4%nat); (7, 5%nat)] /\
+  (rnd sa 54, rnd sb 54) = (Some 8, Some 7) /\
+  map (fun b => (b_index b, b_rr b, b_txs b)) (firstn 7 (delivered sa)) = map (fun b => (b_index b, b_rr b, b_txs b)) (firstn 7 (delivered sb)) /\
+  option_map (fun b => (b_index b, b_rr b, b_txs b)) (nth_error (delivered sa) 7) = Some (7, 8, [46; 47; 49; 50; 51; 52; 53]) /\
+  option_map (fun b => (b_index b, b_rr b, b_txs b)) (nth_error (delivered sb) 7) = Some (7, 8, [46; 47; 49; 48; 50; 51; 52; 53; 55]).
+Proof. vm_compute. repeat split; reflexivity. Qed.
